@@ -98,27 +98,32 @@ def setEntry (e : Entry) (es : List Entry) : List Entry := e :: dropEntry e.id e
 /-- the pending due time of an entry (ms), if its cron has a next time -/
 def Entry.due (e : Entry) : Option Int := (e.cron e.last).map fun n => 1000 * (n : Int) + e.offset
 
+/-- check one run that started: it must be the next one of its task -/
+def checkRun (st : St) (r : Run) : Except String St :=
+  match findEntry r.id st.entries with
+  | none => .error s!"run-after-release:id={r.id}"
+  | some e =>
+    match e.cron e.last with
+    | none => .error s!"run-beyond-schedule:id={r.id}"
+    | some n =>
+      if r.sf ≠ n then
+        (if r.sf ≤ e.last then .error s!"run-duplicate-or-reordered:id={r.id}"
+         else if r.sf < n then .error s!"run-off-schedule:id={r.id}"
+         else .error s!"run-skipped:id={r.id}")
+      else if r.runAt ≠ 1000 * (r.sf : Int) + e.offset then .error s!"wrong-runat:id={r.id}"
+      else if r.runAt > st.now then .error s!"run-early:id={r.id}"
+      else if st.running.contains r.id then .error s!"concurrent-runs:id={r.id}"
+      else
+        .ok { st with entries := setEntry { e with last := r.sf } st.entries,
+                      running := if st.blocked.contains r.id then r.id :: st.running else st.running }
+
 /-- check the runs that started during one operation, in order -/
 def checkRuns : St → List Run → Except String St
   | st, [] => .ok st
   | st, r :: rest =>
-    match findEntry r.id st.entries with
-    | none => .error s!"run-after-release:id={r.id}"
-    | some e =>
-      match e.cron e.last with
-      | none => .error s!"run-beyond-schedule:id={r.id}"
-      | some n =>
-        if r.sf ≠ n then
-          (if r.sf ≤ e.last then .error s!"run-duplicate-or-reordered:id={r.id}"
-           else if r.sf < n then .error s!"run-off-schedule:id={r.id}"
-           else .error s!"run-skipped:id={r.id}")
-        else if r.runAt ≠ 1000 * (r.sf : Int) + e.offset then .error s!"wrong-runat:id={r.id}"
-        else if r.runAt > st.now then .error s!"run-early:id={r.id}"
-        else if st.running.contains r.id then .error s!"concurrent-runs:id={r.id}"
-        else
-          let st' := { st with entries := setEntry { e with last := r.sf } st.entries,
-                               running := if st.blocked.contains r.id then r.id :: st.running else st.running }
-          checkRuns st' rest
+    match checkRun st r with
+    | .error e => .error e
+    | .ok st' => checkRuns st' rest
 
 def wk (st : St) (id : Nat) : Nat := xxhash64ofID id % st.n
 
